@@ -256,13 +256,14 @@ def npcModel (mr : Nat → Bool) (fuel : Nat) (n : Int) : Option Nat :=
     npcLoop mr prs fuel p 0 (prs.map (fun q => p % q))       -- :107-108 mpz_fdiv_ui
 
 
-/-- the `while (!mpz_miller_rabin (x, 23, rnd)) { mpz_add_ui (x, x, 2); mpz_next_prime_candidate (x, x, rnd); }`
-    of mpz_nextprime (mpz/nextprime.c:43-47); mr2 / mr23 = the two probabilistic tests as oracles -/
+/-- the `while (!mpz_miller_rabin (x, 23, rnd)) mpz_next_prime_candidate (x, x, rnd);` of mpz_nextprime
+    (mpz/nextprime.c:43-47, as repaired by af324ce: the former `mpz_add_ui (x, x, 2)` skipped the candidate x + 2);
+    mr2 / mr23 = the two probabilistic tests as oracles -/
 def nextprimeLoop (mr2 mr23 : Nat → Bool) : Nat → Nat → Option Nat
   | 0, _ => none
   | fuel + 1, x =>
     if mr23 x then some x else
-    match npcModel mr2 4000 (Int.ofNat (x + 2)) with         -- :45-46
+    match npcModel mr2 4000 (Int.ofNat x) with               -- :46
     | some y => nextprimeLoop mr2 mr23 fuel y
     | none => none
 
